@@ -862,6 +862,25 @@ fn ops_case(c: &mut Ctx, fam: &str, idx: u64, rng: &mut Rng, w: &[u8], other: &[
                 chk_rel(c, fam, idx, "Name::slice", s.as_slice(), &ex);
                 let r = name.range(b0..b1);
                 chk_rel(c, fam, idx, "Name::range", r.as_slice(), &ex);
+                // the same label range written with other bound kinds
+                if b1 > b0 {
+                    let si = name.slice(b0..=b1 - 1);
+                    let ri = name.range(b0..=b1 - 1);
+                    chk_rel(c, fam, idx, "Name::slice(a..=b)", si.as_slice(), &ex);
+                    chk_rel(c, fam, idx, "Name::range(a..=b)", ri.as_slice(), &ex);
+                    if si.as_slice() != &w[b0..b1] || ri.as_slice() != &w[b0..b1] {
+                        c.violation("slice:inclusive-end-content", "slice/range with an inclusive end bound returned other octets than the half-open form", c.replay_of(fam, idx, ex()));
+                    }
+                    if b0 == 0 {
+                        let su = name.slice(..=b1 - 1);
+                        if su.as_slice() != &w[..b1] {
+                            c.violation("slice:inclusive-end-content", "slice(..=b) returned the wrong octets", c.replay_of(fam, idx, ex()));
+                        }
+                    }
+                }
+                if s.as_slice() != &w[b0..b1] || r.as_slice() != &w[b0..b1] || name.slice(..b1).as_slice() != &w[..b1] {
+                    c.violation("slice:content", "slice/range returned the wrong octets", c.replay_of(fam, idx, ex()));
+                }
             }
         }
         c.count("slices", 1);
@@ -933,6 +952,17 @@ fn ops_case(c: &mut Ctx, fam: &str, idx: u64, rng: &mut Rng, w: &[u8], other: &[
                 chk_rel(c, fam, idx, "RelativeName::slice", s.as_slice(), &ex);
                 let s = rel.range(b0..b1);
                 chk_rel(c, fam, idx, "RelativeName::range", s.as_slice(), &ex);
+                if b1 > b0 {
+                    let si = rel.slice(b0..=b1 - 1);
+                    let ri = rel.range(b0..=b1 - 1);
+                    chk_rel(c, fam, idx, "RelativeName::slice(a..=b)", si.as_slice(), &ex);
+                    if si.as_slice() != &relw[b0..b1] || ri.as_slice() != &relw[b0..b1] {
+                        c.violation("slice:inclusive-end-content:relative", "RelativeName slice/range with an inclusive end bound returned other octets", c.replay_of(fam, idx, ex()));
+                    }
+                }
+                if s.as_slice() != &relw[b0..b1] {
+                    c.violation("slice:content:relative", "RelativeName::range returned the wrong octets", c.replay_of(fam, idx, ex()));
+                }
             }
         }
         let (l, r) = rel.split(b0);
